@@ -251,6 +251,10 @@ func (f *SecretFactory) New(b []byte) (securememory.Secret, error) {
 
 	// Set mprotect to none initially
 	if err := f.memcall().Protect(secret.bytes, memcall.NoAccess()); err != nil {
+		// The pages are still writable and hold the caller's secret: wipe them
+		// before they are unlocked and released.
+		core.Wipe(secret.bytes)
+
 		// Shouldn't happen, but free up the resources if it does. We intentionally
 		// ignore the errors from the cleanup and return the reason why we got here.
 		if err2 := memcall.Clean(f.memcall(), secret.bytes); err2 != nil {
